@@ -40,6 +40,7 @@ from ._customization import (
     yields_frames,
 )
 from . import _extract
+from . import _verif
 
 try:
     if not TYPE_CHECKING:
@@ -91,13 +92,21 @@ glue_lock = threading.Lock()
 
 
 def add_glue_as_needed(*, _sys_modules_len_cache: list[int] = [0]) -> None:
+    if _verif.ENABLED:
+        _verif.checkpoint("glue:enter")
     if len(sys.modules) == _sys_modules_len_cache[0]:
         return
+    if _verif.ENABLED:
+        _verif.checkpoint("glue:slowpath")
     # Use a lock to avoid races between multiple threads trying to extract
     # tracebacks simultaneously
     with glue_lock:
+        if _verif.ENABLED:
+            _verif.checkpoint("glue:locked")
         module_names = tuple(sys.modules)
         for module_name in module_names:
+            if _verif.ENABLED and module_name in builtin_glue_pending:
+                _verif.checkpoint("glue:module", name=module_name)
             builtin_fn = builtin_glue_pending.pop(module_name, None)
             try:
                 module_fn = sys.modules[module_name].__dict__.pop(
@@ -105,6 +114,8 @@ def add_glue_as_needed(*, _sys_modules_len_cache: list[int] = [0]) -> None:
                 )
             except Exception:  # module disappeared, doesn't have a dict, etc
                 module_fn = None
+            if _verif.ENABLED and (module_fn is not None or builtin_fn is not None):
+                _verif.checkpoint("glue:call", name=module_name)
             try:
                 # Prefer the module-supplied glue over our builtin version
                 # in case both are present
@@ -127,6 +138,8 @@ def add_glue_as_needed(*, _sys_modules_len_cache: list[int] = [0]) -> None:
                 )
         # Only update the length cache if we visited every module (rather
         # than bailing out with an exception)
+        if _verif.ENABLED:
+            _verif.checkpoint("glue:scanned")
         _sys_modules_len_cache[0] = len(module_names)
 
 
@@ -487,7 +500,11 @@ def glue_threading() -> None:
         # its frame, then it's possible that its identity was reused, and
         # we shouldn't trust the frame we get.
         was_alive = thread.is_alive()
+        if _verif.ENABLED:
+            _verif.checkpoint("thread:was_alive", thread=thread)
         inner_frame = sys._current_frames().get(thread.ident)  # type: ignore
+        if _verif.ENABLED:
+            _verif.checkpoint("thread:got_frame", thread=thread)
         if inner_frame is None or not thread.is_alive() or not was_alive:
             return []
         return StackSlice(inner=inner_frame)
